@@ -933,7 +933,7 @@ End Proofs.
 (* ------------------------------------------------------------------ concrete witnesses (ideal symbolic hash / signature) *)
 Module Wit.
 Definition Hc (x : bytes) : bytes := 1000 :: x.
-Definition serc (t : tx) : bytes := match t with TPut k v => 0 :: k :: N.of_nat (length v) :: v | TDel k => [1; k] end.
+Definition serc (t : tx) : bytes := match t with TPut k v => 0 :: k :: N.of_nat (length v) :: v | TDel k => [1; k] | TOther x a b => [2; x; a; b] end.
 Definition signc (p m : bytes) : bytes := 2000 :: p ++ 2001 :: m.
 Definition sigvc (p m s : bytes) : bool := bytes_eqb s (signc p m).
 Definition regc (p : bytes) : bool := bytes_eqb p [1].
@@ -1028,7 +1028,7 @@ Lemma H32_len x : length (H32 x) = 32%nat.
 Proof. unfold H32. rewrite firstn_length, app_length, repeat_length. lia. Qed.
 Lemma serc_inj a b : serc a = serc b -> a = b.
 Proof.
-  destruct a as [k v|k], b as [k' v'|k']; cbn; intros E; try discriminate; injection E; intros; subst; reflexivity.
+  destruct a as [k v|k|x a1 a2], b as [k' v'|k'|x' b1 b2]; cbn; intros E; try discriminate; injection E; intros; subst; reflexivity.
 Qed.
 End Wit.
 
